@@ -639,6 +639,9 @@ Apply(s0, c) ==
     [] c.op = "enable_vbu"     -> EnableVBU(s, c.f)
     [] c.op = "enable_ebu"     -> EnableEBU(s, c.f)
     [] c.op = "enable_fbu"     -> EnableFBU(s, c.f)
+    [] c.op = "enable_bu"      -> EnableFBU(EnableEBU(EnableVBU(s, c.f), c.f), c.f)   \* enable_bottom_up_incidences: the three in this order
+    [] c.op = "reorder"        -> [(IF s.ebu /\ s.fbu THEN Reorder(s, c.a) ELSE s) EXCEPT !.ret = Void]  \* public reorder_incident_halffaces(e)
+    [] c.op = "reserve"        -> [s EXCEPT !.ret = Void]   \* reserve_vertices/edges/faces/cells (a = kind, b = n): capacity only
     [] c.op = "clear"          -> Clear(s, c.f)
     [] c.op = "status_gc"      -> StatusGC(s, MarksOf(c.l), c.f)
     [] c.op \in {"stamp", "more_props"} -> [s EXCEPT !.ret = Void]   \* executor bookkeeping: the mesh is untouched
